@@ -14,7 +14,17 @@ echo "== demo with patch (expect FAIL)" >> $LOG
 go test -vet=off -count=1 -run 'TestSeedDemo$' $PKG >> $LOG 2>&1; A=$?
 PKGS=$(git diff --name-only | xargs -n1 dirname | sort -u | sed 's#^#./#; s#$#/...#' | tr '\n' ' ')
 echo "== existing tests with patch: $PKGS (expect ok)" >> $LOG
-go test -vet=off -count=1 -skip 'TestSeedDemo$' $PKGS 2>&1 | tail -15 >> $LOG; B=${PIPESTATUS[0]}
+go test -vet=off -count=1 -skip 'TestSeedDemo$' $PKGS > $S/existing.out 2>&1; B=$?
+tail -15 $S/existing.out >> $LOG
+if [ $B -ne 0 ]; then
+  # timing-sensitive tests of the repository flake when the machine is loaded: re-run only the failed
+  # top-level tests (twice); they count as passing only if both re-runs pass
+  FAILED=$(grep -E '^--- FAIL: ' $S/existing.out | awk '{print $3}' | sort -u | paste -sd'|')
+  if [ -n "$FAILED" ]; then
+    echo "== re-running failed tests with patch: $FAILED" >> $LOG
+    go test -vet=off -count=2 -run "^($FAILED)\$" $PKGS 2>&1 | tail -8 >> $LOG; B=${PIPESTATUS[0]}
+  fi
+fi
 git apply -R $S/patch.diff
 echo "== demo without patch (expect ok)" >> $LOG
 go test -vet=off -count=1 -run 'TestSeedDemo$' $PKG >> $LOG 2>&1; C=$?
